@@ -293,4 +293,5 @@ func init() {
 	registerTLSIdentityOps()
 	registerServerOps()
 	registerTokColOps()
+	registerTLSChainOps()
 }
